@@ -48,7 +48,12 @@ func c14Segment(c *core.Ctx, id int, funcs *strings.Builder) c14Seg {
 	r := c.Rng
 	n := 1 + r.Intn(6)
 	v := fmt.Sprintf("i%d", id)
-	switch r.Intn(9) {
+	switch r.Intn(10) {
+	case 9:
+		c.Cover("segment", "call-in-argument")
+		fmt.Fprintf(funcs, "func cnt%d:num m:num\n    t := 0\n    for j := range m\n        t = t + j\n    end\n    return t\nend\nfunc fib%d:num m:num\n    if m < 2\n        return m\n    end\n    return (fib%d m-1) + (fib%d m-2)\nend\n", id, id, id, id)
+		fibCalls := []int{1, 1, 3, 5, 9, 15, 25, 41}[n] // calls made by fib n
+		return c14Seg{fmt.Sprintf("acc = acc + (len [(cnt%d %d) (fib%d %d)])\ns = s + (sprint (cnt%d %d))\nacc = (max (fib%d %d) acc)\n", id, n, id, n, id, n, id, n), 2*n + 2 + 2*fibCalls}
 	case 7:
 		c.Cover("segment", "for-empty-body")
 		body := []string{"    // idle\n", "\n", "    // a\n\n    // b\n"}[r.Intn(3)]
